@@ -46,7 +46,12 @@ type walletCfg struct {
 	Listener bool   `json:"listener"`
 	Regex    bool   `json:"regex"`
 	Format   string `json:"metadata_format"`
+	Loose    bool   `json:"loose_regex,omitempty"` // Part 3 only: a capture group that also matches non-addresses
 }
+
+// a regex whose capture group also matches names that are not addresses: those files have to be
+// ignored (ethtypes.NewAddress fails), so the address function is still nameAddr
+const looseRegex = `^(.+)\.key\.json$`
 
 func (c walletCfg) conf(dir string) *fswallet.Config {
 	cf := &fswallet.Config{
@@ -59,6 +64,9 @@ func (c walletCfg) conf(dir string) *fswallet.Config {
 	}
 	if c.Regex {
 		cf.Filenames.PrimaryMatchRegex = matchRegex
+		if c.Loose {
+			cf.Filenames.PrimaryMatchRegex = looseRegex
+		}
 	}
 	return cf
 }
